@@ -71,6 +71,19 @@ async def check_message(client, seq, b, errors, where):
         if (got or b'') != b[o:o + n]:
             errors.append(f'{where}: BODY[]<{o}.{n}> returned {got!r:.60}, expected {b[o:o + n]!r:.60}')
             break
+    # two partial ranges in ONE command whose offsets are different numbers with the same CPython hash (n and n + 2**61-1):
+    # both items were asked for, both must come back, each with its own octets
+    far = 2 ** 61 - 1
+    for o, n in ((0, 5), (1, 3)):
+        for first, second in (((o, n), (o + far, n)), ((o + far, n), (o, n))):
+            r = await client.cmd(b'FETCH %d (BODY.PEEK[]<%d.%d> BODY.PEEK[]<%d.%d>)' % ((seq,) + first + second))
+            resp = b''.join(u for u in r['untagged'] if b' FETCH ' in u[:20])
+            for oo, nn in (first, second):
+                got = literal_payload(resp, b'BODY[]<%d>' % oo)
+                if got == b'<<missing>>' or (got or b'') != b[oo:oo + nn]:
+                    errors.append(f'{where}: FETCH (BODY[]<{first[0]}.{first[1]}> BODY[]<{second[0]}.{second[1]}>): the item '
+                                  f'BODY[]<{oo}> came back as {got!r:.40}, expected {b[oo:oo + nn]!r:.40}')
+                    return
 
 
 async def scenario(b, backend='dict'):
